@@ -846,7 +846,8 @@ def sendMessage (t : Tx K) (maxPayload : Nat) (bin dnc : Bool) (frag : Option Na
     let r2 := endCompress r1.1
     let wire := r1.2 ++ r2.2
     let t' : Tx K := { t with comp := some r2.1 }
-    if 0 < maxPayload ∧ maxPayload < wire.length then (t', .refused)
+    -- refused after compressing: the compression context is dropped, the next message starts a fresh one
+    if 0 < maxPayload ∧ maxPayload < wire.length then ({ t with comp := none }, .refused)
     else match fragment frag (opcodeOf bin) 4 wire with
       | none => (t', .error)
       | some fs => (t', .sent fs)
